@@ -76,6 +76,8 @@ void rt_point (const char *tag);           /* park as OP_CLIENT */
 int  rt_choose (const char *tag);          /* park as OP_CLIENT, return the granted choice */
 void rt_region_begin (int kind, void *addr, const char *tag); /* park, then run without parking until _end */
 void rt_region_end (void);
+void rt_region_begin2 (int kind, void *addr, const char *tag, unsigned a);
+extern int rt_no_exit_dest;                /* 1: do not run the waiter destructor at thread exit (L2) */
 void rt_noyield_begin (void);              /* no park at all (harness bookkeeping inside a fiber) */
 void rt_noyield_end (void);
 /* ---- memory ---- */
@@ -88,6 +90,7 @@ const char *rt_fn_name (const void *pc, char *buf, size_t n);
 void rt_track_stack_frames (int on);       /* O-mem on dead stack bytes */
 void rt_dead_mark (const void *p, size_t n, int owner, const char *what);  /* object whose owner's call has returned */
 void rt_dead_clear (int owner);
+int rt_timed_waiter_pending (void);
 /* ---- oracles ---- */
 void rt_violation (const char *oracle, const char *fmt, ...);
 const struct rt_viol *rt_first_violation (void);   /* NULL if none since reset */
@@ -106,6 +109,7 @@ void rt_set_ord_cb (rt_ord_cb cb);
 extern void (*rt_on_acquire) (void *mu, int writer, int tid);
 extern void (*rt_on_release) (void *mu, int writer, int tid);
 extern void (*rt_on_access) (void *addr, int size, int is_write, int tid);
+extern int (*rt_client_gate) (int tid);   /* may a fiber parked at a client point proceed? (scenario gates) */
 /* step granularity */
 extern int rt_sem_single_step;             /* 1: semaphore calls are single steps (L1/L2); 0: park inside (Sem) */
 extern int rt_binary_sem;                  /* 1: V saturates at 1 (binary semaphore flavour) */
